@@ -19,6 +19,8 @@
 #include "interpreter.h"
 #include "processor.cpp"
 #include "teakra.cpp"
+#include "teakra/teakra_c.h"
+#include "teakra_c.cpp"   // struct TeakraObject: every other instance is created (and reset) through the C binding
 
 using namespace Teakra;
 using vlayout::NREG;
@@ -35,16 +37,20 @@ static void pollute_heap(vh::Rng& rng) {
 }
 
 struct Inst {
-    std::unique_ptr<Teakra::Teakra> t;
+    std::unique_ptr<Teakra::Teakra> own;
+    TeakraContext* ctx = nullptr;
+    Teakra::Teakra* t = nullptr;
+    ~Inst() { if (ctx) Teakra_Destroy(ctx); }
+    void reset() { if (ctx) Teakra_Reset(ctx); else t->Reset(); }
     long audio = 0, rd[3] = {0, 0, 0}, sem = 0;
     long ext_n = 0; u32 ext_h = 0;
     void ext(u32 kind, u32 addr, u32 v) { ++ext_n; ext_h = (ext_h * 16777619u) ^ (kind * 0x9E3779B1u + addr * 31u + v); }
     static u32 mix(u32 a) { a ^= a >> 15; a *= 0x2C1B3C6Du; a ^= a >> 12; return a; }
     auto& impl() { return *TeakraVerifAccess::impl(*t); }
     auto& interp() { return TeakraVerifAccess::interpreter(*TeakraVerifAccess::impl(TeakraVerifAccess::processor(impl()))); }
-    void make() {
-        Teakra::UserConfig cfg;
-        t = std::make_unique<Teakra::Teakra>(cfg);
+    void make(bool capi = false) {
+        if (capi) { ctx = Teakra_Create(); t = &ctx->teakra; }
+        else { Teakra::UserConfig cfg; own = std::make_unique<Teakra::Teakra>(cfg); t = own.get(); }
         t->SetAudioCallback([this](std::array<s16, 2>) { ++audio; });
         for (int i = 0; i < 3; ++i) t->SetRecvDataHandler(i, [this, i]() { ++rd[i]; });
         t->SetSemaphoreHandler([this]() { ++sem; });
@@ -195,22 +201,22 @@ int main(int argc, char** argv) {
     vh::Rng rng(a.seed);
     // reference: the very first instance of a pristine process, constructed and reset
     {
-        Inst ref; ref.make(); ref.t->Reset();
+        Inst ref; ref.make(); ref.reset();
         o.begin(); o.str("e", "Obs"); o.str("when", "reference"); o.raw("o", observe(ref)); o.end();
     }
     for (long k = 0; k < a.n; ++k) {
         vh::Rng hr(a.seed * 131 + k);                    // the history depends on (seed, k) only
         pollute_heap(rng);
-        Inst in; in.make();
+        Inst in; in.make(k % 2 == 1);
         o.begin(); o.str("e", "New"); o.num("k", k); o.end();
         o.begin(); o.str("e", "Obs"); o.str("when", "fresh"); o.raw("o", observe(in)); o.end();
-        if (rng.chance(1, 2)) { in.t->Reset(); o.begin(); o.str("e", "Reset"); o.end();
+        if (rng.chance(1, 2)) { in.reset(); o.begin(); o.str("e", "Reset"); o.end();
             o.begin(); o.str("e", "Obs"); o.str("when", "fresh_reset"); o.raw("o", observe(in)); o.end(); }
         int ops = 20 + hr.below(200);
         history(in, hr, ops);
         o.begin(); o.str("e", "Hist"); o.num("ops", ops); o.end();
         o.begin(); o.str("e", "Obs"); o.str("when", "dirty"); o.raw("o", observe(in)); o.end();
-        in.t->Reset();
+        in.reset();
         o.begin(); o.str("e", "Reset"); o.end();
         o.begin(); o.str("e", "Obs"); o.str("when", "reset"); o.raw("o", observe(in)); o.end();
         // the same history again after the Reset must give the same observation as on a fresh reset instance
@@ -218,7 +224,7 @@ int main(int argc, char** argv) {
         hr2.below(200);
         history(in, hr2, ops);
         o.begin(); o.str("e", "Obs"); o.str("when", "replayed_after_reset"); o.raw("o", observe(in)); o.end();
-        Inst f2; f2.make(); f2.t->Reset();
+        Inst f2; f2.make(k % 2 == 1); f2.reset();
         vh::Rng hr3(a.seed * 131 + k);
         hr3.below(200);
         history(f2, hr3, ops);
